@@ -1,7 +1,8 @@
 import PtnModel.Props.C17
 import PtnModel.Proofs.TotalAutomaton
+import PtnModel.Proofs.TotalTrees
 /-!
-# C17, totality: `OpGraph.from_automaton` returns
+# C17, totality: `OpGraph.from_automaton` and `OpGraph.from_optrees` return
 
 `Props/C17.lean` describes the graph unrolled from an operator state automaton *whenever `from_automaton` returns*.  Here the call is
 shown to return exactly when its guards hold, so the statements apply unconditionally.
@@ -20,6 +21,22 @@ listed edge id an edge (so no look-up raises), the running node / edge ids are f
 `add_connect_edge`, no failing `add_edge_id` assertion), the node-map look-up `nids_map[i][…]` is in range, the dummy node is still
 there to be removed, and the final `assert graph.is_consistent()` holds because every edge leads from the nodes of layer `j` to
 those of layer `j + 1` (the graph is levelled) and the construction keeps it structurally valid.
+
+## operator trees
+
+`from_optrees(trees, L, id)` inserts, for every tree, `istart` identities from the start node (if `istart > 0`), then the tree by
+`_insert_subtree(root, ·, L - istart)`, and finally calls `simplify()`.  Its guards (`Proofs/TotalTrees.lean`):
+
+* `T.fits qT dist` (Bool): the subtree `T` fits into `dist` sites -- a leaf anywhere (`dist ≥ 0`; it is padded with `dist`
+  identities), an inner node only with `dist ≥ 1` -- and a child reached exactly at distance 0 (it is identified with the end node,
+  whose charge is `qT = 0`) carries the charge `qT`; otherwise the code raises `ValueError` (`terminal_dist < 0`) or
+  `RuntimeError` (charge mismatch);
+* `TreeOk L t` (decidable): `0 ≤ istart < L` (a tree starting at the last bond would have to be the end node itself: the assertion
+  `nid_root == nid_terminal[1]` fails), `root.qnum = 0` if `istart = 0` (the root is the start node), and `root.fits 0 (L - istart)`.
+
+Under `TreeOk` for every tree nothing can fail: all ids are `max + 1` (fresh), every `add_edge_id` assertion holds because all listed
+edge ids are keys of the edge dictionary, the charges of existing nodes never change, the loop leaves a valid graph
+(`optrees_consistent_presimplify`), and `simplify` returns on valid graphs (`C16.simplify_total`).
 -/
 set_option linter.unusedSectionVars false
 
@@ -76,5 +93,41 @@ example : AutWellFormed (⟨[(0, ⟨0, [], [0], 0⟩), (1, ⟨1, [0], [], 0⟩)]
     fromAutomaton (⟨[(0, ⟨0, [], [0], 0⟩), (1, ⟨1, [0], [], 0⟩)],
       [(0, ⟨0, (0, 1), fun _ => [(5, 1)], fun i => i == 0⟩)], (0, 1)⟩ : AutOp ℤ) 2 = .error .assertion := by
   refine ⟨by decide, by decide, by decide, by rfl⟩
+
+/-! ## operator trees -/
+
+/-- **`from_optrees` returns under its guards, unconditional statement.**  For every list of trees satisfying `TreeOk L` (start site
+`0 ≤ istart < L`, root charge 0 when `istart = 0`, the tree fits into `L - istart` sites, nodes reached at the last site carry charge
+0) `OpGraph.from_optrees(trees, L, id)` returns; the returned graph is consistent, has terminals `0, 1`, has length `L` (for a
+non-empty list), and denotes the sum of the trees, each padded with identities before its start site and after its leaves. -/
+theorem optrees_total (trees : List (OpTree κ)) (L id : Int) (h : ∀ t ∈ trees, TreeOk L t) :
+    ∃ g, fromOptrees trees L id = .ok g ∧ g.isConsistent = true ∧ g.nidTerminal = (0, 1) ∧
+      (trees ≠ [] → g.length = .ok L.toNat) ∧ ∀ w, g.denF w = symCoeff (denTreesRaw trees L id) w := by
+  obtain ⟨_, g, _, _, _, hg⟩ := fromOptrees_total trees L id h
+  have hstart : ∀ t ∈ trees, 0 ≤ t.istart := fun t ht => (h t ht).1
+  obtain ⟨_, _, ht, hsem⟩ := optrees_sem hg
+  exact ⟨g, hg, optrees_consistent hg hstart, ht, fun hne => optrees_length hg hne hstart, hsem⟩
+
+/-- the loop over the trees (before `simplify`) returns a valid graph, and `simplify` returns on it -/
+theorem optrees_total_presimplify (trees : List (OpTree κ)) (L id : Int) (h : ∀ t ∈ trees, TreeOk L t) :
+    ∃ gp g, fromOptreesPre trees L id = .ok gp ∧ Valid gp ∧ gp.simplify = .ok g ∧ fromOptrees trees L id = .ok g :=
+  fromOptrees_total trees L id h
+
+/-- non-vacuity: the two trees `ts₁` of `Props/C17.lean` on one site (one edge into the end node, and a single leaf padded with one
+identity) satisfy the guard; a tree of height 2 does not fit on one site, a tree whose root charge is 1 cannot start at site 0, and a
+tree cannot start at the last bond -/
+example : (∀ t ∈ ts₁, TreeOk 1 t) ∧
+    ¬ TreeOk 1 (⟨.mk 0 [(5, 2, .mk 0 [(5, 1, .mk 0 [])])], 0⟩ : OpTree ℤ) ∧
+    ¬ TreeOk 2 (⟨.mk 1 [(5, 2, .mk 0 [])], 0⟩ : OpTree ℤ) ∧
+    TreeOk 2 (⟨.mk 1 [(5, 2, .mk 0 [])], 1⟩ : OpTree ℤ) ∧
+    ¬ TreeOk 2 (⟨.mk 0 [], 2⟩ : OpTree ℤ) := by
+  refine ⟨by decide, by decide, by decide, by decide, by decide⟩
+
+/-- and the code indeed raises outside the guard: height 2 on one site (`ValueError`), root charge 1 at the start node
+(`RuntimeError`), a single leaf starting at the last bond (`AssertionError`) -/
+example : fromOptrees ([⟨.mk 0 [(5, 2, .mk 0 [(5, 1, .mk 0 [])])], 0⟩] : List (OpTree ℤ)) 1 0 = .error .value ∧
+    fromOptrees ([⟨.mk 1 [(5, 2, .mk 0 [])], 0⟩] : List (OpTree ℤ)) 2 0 = .error .runtime ∧
+    fromOptrees ([⟨.mk 0 [], 2⟩] : List (OpTree ℤ)) 2 0 = .error .assertion := by
+  refine ⟨by decide, by decide, by decide⟩
 
 end Ptn.C17
